@@ -110,4 +110,128 @@ SnapVecWeights(g, s) ==
      /\ \A j \in VecNbrs(s.pred_vec[i]) :
           (j + 1 \in 1..n /\ HasPair(g, g.nodes[j + 1].name, u)) =>
              VecMinW(s.pred_vec[i], j) = PairMinW(g, g.nodes[j + 1].name, u)
+
+---------------------------------------------------------------------------
+(* Part 2: the update rules of creation.rs over a store record.            *)
+(*                                                                         *)
+(* st.idx    name -> 0-based position            (nodes_map)               *)
+(* st.rev    0-based position -> [name, attr]    (nodes_map_rev)           *)
+(* st.vec    sequence of [name, attr]            (nodes_vec)               *)
+(* st.edgesN name key -> sequence of [u,v,w,a]   (edges)                   *)
+(* st.edgesI position key -> the same sequence   (edges_map)               *)
+(* st.succN / st.predN   name -> set of names    (only names that got one) *)
+(* st.succI / st.predI   position -> set of positions (every position)     *)
+(* st.succV / st.predV   per position a sequence of [n, w]                 *)
+(*                                                                         *)
+(* VecRule selects how add_to_adjacency_vec treats an edge whose pair      *)
+(* already exists:                                                         *)
+(*   "min_always"  keep the smaller weight whatever the policy (the code   *)
+(*                 as pinned; violates C03 under KeepFirst / KeepLast)     *)
+(*   "policy"      multi-edge: keep the smaller; KeepLast: take the new    *)
+(*                 weight; KeepFirst / Error: keep the stored weight; and  *)
+(*                 every entry for the neighbour is updated (an undirected *)
+(*                 self-loop is listed twice: TLC shows that updating only *)
+(*                 the first entry leaves the second one stale)            *)
+
+EmptyStore ==
+  [idx |-> <<>>, rev |-> <<>>, vec |-> <<>>, edgesN |-> <<>>, edgesI |-> <<>>,
+   succN |-> <<>>, succI |-> <<>>, succV |-> <<>>, predN |-> <<>>, predI |-> <<>>, predV |-> <<>>]
+
+Put(f, k, v) == (k :> v) @@ f                                    \* insert or overwrite
+AddTo(f, k, x) == IF k \in DOMAIN f THEN [f EXCEPT ![k] = @ \cup {x}] ELSE (k :> {x}) @@ f
+
+StoreAddNode(st, n, a) ==
+  IF n \in DOMAIN st.idx THEN
+       LET i == st.idx[n] IN
+       [st EXCEPT !.vec = [@ EXCEPT ![i + 1] = [name |-> n, attr |-> a]],
+                  !.rev = Put(@, i, [name |-> n, attr |-> a])]
+  ELSE LET i == Len(st.vec) IN
+       [st EXCEPT !.idx = Put(@, n, i),
+                  !.rev = Put(@, i, [name |-> n, attr |-> a]),
+                  !.vec = Append(@, [name |-> n, attr |-> a]),
+                  !.succI = Put(@, i, {}),
+                  !.predI = Put(@, i, {}),
+                  !.succV = Append(@, <<>>),
+                  !.predV = Append(@, <<>>)]
+
+StoreHasEdgeI(st, directed, i, j) ==
+  LET k == IF directed \/ i <= j THEN <<i, j>> ELSE <<j, i>> IN k \in DOMAIN st.edgesI
+
+(* add_to_adjacency_vec *)
+VecAdd(rule, specs, v, i, j, w, exists) ==
+  IF ~exists THEN [v EXCEPT ![i + 1] = Append(@, [n |-> j, w |-> w])]
+  ELSE LET l == v[i + 1] IN
+       IF rule = "min_always" THEN
+            (* the code as pinned: only the first entry for j, and always the minimum *)
+            LET p == CHOOSE x \in DOMAIN l : l[x].n = j /\ \A y \in DOMAIN l : l[y].n = j => x <= y
+            IN IF w < l[p].w THEN [v EXCEPT ![i + 1] = [@ EXCEPT ![p] = [n |-> j, w |-> w]]] ELSE v
+       ELSE (* every entry for j (an undirected self-loop has two), by policy *)
+            LET takeNew(old) == IF specs.multi THEN w < old ELSE specs.dedupe = "KeepLast"
+            IN [v EXCEPT ![i + 1] = [x \in DOMAIN l |->
+                                       IF l[x].n = j /\ takeNew(l[x].w) THEN [n |-> j, w |-> w] ELSE l[x]]]
+
+(* add_edge; e = [u, v, w, a].  Returns [res, st] *)
+StoreAddEdge(rule, st, specs, e) ==
+  IF ~specs.loops /\ e.u = e.v THEN
+       IF specs.loopfalse = "Error" THEN [res |-> "SelfLoopsFound", st |-> st] ELSE [res |-> "Ok", st |-> st]
+  ELSE IF specs.missing = "Error" /\ (e.u \notin DOMAIN st.idx \/ e.v \notin DOMAIN st.idx) THEN
+       [res |-> "NodeNotFound", st |-> st]
+  ELSE
+    LET s1 == IF e.u \in DOMAIN st.idx THEN st ELSE StoreAddNode(st, e.u, 0)
+        s2 == IF e.v \in DOMAIN s1.idx THEN s1 ELSE StoreAddNode(s1, e.v, 0)
+        iu == s2.idx[e.u]
+        iv == s2.idx[e.v]
+        exists == StoreHasEdgeI(s2, specs.directed, iu, iv)
+    IN IF specs.dedupe = "Error" /\ ~specs.multi /\ exists THEN [res |-> "DuplicateEdge", st |-> s2]
+       ELSE
+         LET swapN == ~specs.directed /\ e.u > e.v                 \* edge.ordered(): by NAME
+             ord == IF swapN THEN [u |-> e.v, v |-> e.u, w |-> e.w, a |-> e.a] ELSE e
+             swapI == ~specs.directed /\ iu > iv                   \* ordered indexes: by POSITION
+             ou == IF swapI THEN iv ELSE iu
+             ov == IF swapI THEN iu ELSE iv
+             rec == <<ord.u, ord.v, ord.w, ord.a>>
+             kN == <<ord.u, ord.v>>
+             kI == <<ou, ov>>
+             s3 == [s2 EXCEPT !.succN = AddTo(@, e.u, e.v),
+                              !.succI = AddTo(@, iu, iv),
+                              !.succV = VecAdd(rule, specs, @, ou, ov, e.w, exists)]
+             s4 == IF specs.directed
+                     THEN [s3 EXCEPT !.predN = AddTo(@, e.v, e.u),
+                                     !.predI = AddTo(@, iv, iu),
+                                     !.predV = VecAdd(rule, specs, @, ov, ou, e.w, exists)]
+                     ELSE [s3 EXCEPT !.succN = AddTo(@, e.v, e.u),
+                                     !.succI = AddTo(@, iv, iu),
+                                     !.succV = VecAdd(rule, specs, @, ov, ou, e.w, exists)]
+             s5 == IF specs.multi
+                     THEN [s4 EXCEPT !.edgesN = IF kN \in DOMAIN @ THEN [@ EXCEPT ![kN] = Append(@, rec)] ELSE Put(@, kN, <<rec>>),
+                                     !.edgesI = IF kI \in DOMAIN @ THEN [@ EXCEPT ![kI] = Append(@, rec)] ELSE Put(@, kI, <<rec>>)]
+                   ELSE IF ~StoreHasEdgeI(s4, specs.directed, ou, ov) \/ specs.dedupe = "KeepLast"
+                     THEN [s4 EXCEPT !.edgesN = Put(@, kN, <<rec>>), !.edgesI = Put(@, kI, <<rec>>)]
+                   ELSE s4
+         IN [res |-> "Ok", st |-> s5]
+
+(* The store in the JSON shape of a hook snapshot, so that the same Snap*   *)
+(* predicates judge recorded snapshots and model states.                    *)
+SeqOfSet(S) ==
+  LET RECURSIVE R(_)
+      R(T) == IF T = {} THEN <<>> ELSE LET x == CHOOSE y \in T : TRUE IN <<x>> \o R(T \ {x})
+  IN R(S)
+
+StoreToSnap(st) ==
+  [nodes_map |-> SeqOfSet({<<n, st.idx[n]>> : n \in DOMAIN st.idx}),
+   nodes_map_rev |-> SeqOfSet({<<i, st.rev[i].name, st.rev[i].attr>> : i \in DOMAIN st.rev}),
+   nodes_vec |-> [i \in 1..Len(st.vec) |-> <<st.vec[i].name, st.vec[i].attr>>],
+   edges |-> SeqOfSet({<<k[1], k[2], st.edgesN[k]>> : k \in DOMAIN st.edgesN}),
+   edges_map |-> SeqOfSet({<<k[1], k[2], st.edgesI[k]>> : k \in DOMAIN st.edgesI}),
+   succ |-> SeqOfSet({<<n, SeqOfSet(st.succN[n])>> : n \in DOMAIN st.succN}),
+   succ_map |-> SeqOfSet({<<i, SeqOfSet(st.succI[i])>> : i \in DOMAIN st.succI}),
+   succ_vec |-> [i \in 1..Len(st.succV) |-> [j \in 1..Len(st.succV[i]) |-> <<st.succV[i][j].n, st.succV[i][j].w>>]],
+   pred |-> SeqOfSet({<<n, SeqOfSet(st.predN[n])>> : n \in DOMAIN st.predN}),
+   pred_map |-> SeqOfSet({<<i, SeqOfSet(st.predI[i])>> : i \in DOMAIN st.predI}),
+   pred_vec |-> [i \in 1..Len(st.predV) |-> [j \in 1..Len(st.predV[i]) |-> <<st.predV[i][j].n, st.predV[i][j].w>>]]]
+
+(* C02: all indexes describe the abstract state g *)
+Coherent(g, s) == SnapNodes(g, s) /\ SnapEdgesN(g, s) /\ SnapEdgesI(g, s) /\ SnapAdjN(g, s) /\ SnapAdjI(g, s)
+(* C03: the traversal lists hold the stored neighbours with the least stored weight *)
+AdjMatches(g, s) == SnapVecSets(g, s) /\ SnapVecWeights(g, s)
 =============================================================================
